@@ -1,2 +1,32 @@
-(** Theorems for C17: filled in below as the proofs land. *)
-From JL Require Import Base.Json.
+(** * C17: apply is a pure, stateless, thread-safe function of (rule, data).
+    Statements only; proofs are in Proofs/Totality.v.
+
+    The model is a Gallina function, so these facts hold of it by construction; their content
+    is the claim that a stateless model is the right model of the implementation, which is what
+    the correspondence run (histories, permutations, 16 threads on shared inputs, each call
+    compared with the same call in a fresh process) supports.  Data races are excluded by Rust's
+    &Value signature and the absence of unsafe / interior mutability, not by a theorem here. *)
+From Coq Require Import List.
+From JL Require Import Base.Json Base.Monad Model.Ops Model.Eval Proofs.Totality.
+Import ListNotations.
+
+Theorem C17_history_pointwise :
+  forall h i c, nth_error h i = Some c -> nth_error (run_history h) i = Some (apply (fst c) (snd c)).
+Proof. exact history_pointwise. Qed.
+Print Assumptions C17_history_pointwise.
+
+Theorem C17_history_concat : forall h1 h2, run_history (h1 ++ h2) = run_history h1 ++ run_history h2.
+Proof. exact history_app. Qed.
+Print Assumptions C17_history_concat.
+
+Theorem C17_history_reversed : forall h, run_history (rev h) = rev (run_history h).
+Proof. exact history_rev. Qed.
+Print Assumptions C17_history_reversed.
+
+Theorem C17_history_repeated : forall c k, run_history (repeat c k) = repeat (apply (fst c) (snd c)) k.
+Proof. exact history_repeat. Qed.
+Print Assumptions C17_history_repeated.
+
+Theorem C17_log_effect : forall v, op_log [v] = ([v], Ok v).
+Proof. exact log_effect. Qed.
+Print Assumptions C17_log_effect.
